@@ -1,5 +1,6 @@
 import FitProofs.EncodeItems
 import FitProofs.MsgRoundtrip
+import FitProofs.HdrKind
 /-
   C05 at file level: the record area `Encode` writes is the serialisation of items that fit.
 -/
@@ -542,27 +543,30 @@ theorem natLE2_lo_hi (c : BitVec 16) : natLE 2 c.toNat = [lo c, hi c] := by
   · congr 1
     apply UInt8.toNat_inj.mp; rw [hi_toNat']; simp
 
-/-- with a 14-byte header and the ".FIT" tag, what `Encode` lays out is `frameBytes` -/
-theorem finishEncode_frame (f : FileSt) (body : Bytes) (hs : f.hdr.size = headerSizeCRC) (ht : f.hdr.dtype = fitTag)
-    (hl : body.length < 4294967296) :
-    (finishEncode f body).1 = frameBytes f.hdr.proto f.hdr.profile body := by
-  unfold finishEncode frameBytes marshalHeader
-  simp only [hs, ↓reduceIte, ht, Nat.mod_eq_of_lt hl]
+/-- with a 12- or 14-byte header and the ".FIT" tag, what `Encode` lays out is a frame: a header
+    without CRC for size 12, with its CRC for size 14 -/
+theorem finishEncode_frame (f : FileSt) (body : Bytes) (hs : f.hdr.size = headerSizeNoCRC ∨ f.hdr.size = headerSizeCRC)
+    (ht : f.hdr.dtype = fitTag) (hl : body.length < 4294967296) :
+    (finishEncode f body).1 = frameBytesK (kindOfSize f.hdr.size) f.hdr.proto f.hdr.profile body := by
   have htk : fitTag.take 4 = fitTag := rfl
-  rw [htk]
-  simp only [natLE2_lo_hi, headerSizeCRC, u8]
-  simp
+  rcases hs with hs | hs
+  · unfold finishEncode frameBytesK marshalHeader
+    simp only [hs, ht, Nat.mod_eq_of_lt hl, htk]
+    simp [natLE2_lo_hi, headerSizeCRC, headerSizeNoCRC, u8, kindOfSize, frameHdr, hdr12, hdrExtra, HdrKind.size]
+  · unfold finishEncode frameBytesK marshalHeader
+    simp only [hs, ↓reduceIte, ht, Nat.mod_eq_of_lt hl, htk]
+    simp [natLE2_lo_hi, headerSizeCRC, u8, kindOfSize, frameHdr, hdr12, hdrExtra, HdrKind.size]
 
-/-- **What `Encode` writes is a well-formed, self-describing FIT file**: a 14-byte header with its
+/-- **What `Encode` writes is a well-formed, self-describing FIT file**: a 12-byte header, or a 14-byte header with its
     CRC, then records that are the serialisation of items in which every data record fits the
     definition live for its local type — starting with the file_id definition and data record —
     then the file CRC. -/
 theorem encode_wellformed (P : Profile) (hwf : ProfileWF P = true) (arch : Endian) (f f' : FileSt) (bs : Bytes)
-    (h : encode P arch f = .ok bs f') (hs : f.hdr.size = headerSizeCRC) (ht : f.hdr.dtype = fitTag)
+    (h : encode P arch f = .ok bs f') (hs : f.hdr.size = headerSizeNoCRC ∨ f.hdr.size = headerSizeCRC) (ht : f.hdr.dtype = fitTag)
     (hsmall : bs.length < 4294967296) :
     ∃ (d0 : DefMsg) (parts0 : List Bytes) (rest : List Item),
       d0.global = f.fileId.num ∧ d0.localT = 0 ∧
-      bs = frameBytes f.hdr.proto f.hdr.profile (serialize (.defn d0 false :: .data 0 parts0 [] :: rest)) ∧
+      bs = frameBytesK (kindOfSize f.hdr.size) f.hdr.proto f.hdr.profile (serialize (.defn d0 false :: .data 0 parts0 [] :: rest)) ∧
       ItemsFitD P (List.replicate 16 none) (.defn d0 false :: .data 0 parts0 [] :: rest) := by
   unfold encode at h
   split at h
